@@ -288,7 +288,16 @@ func c06Apply(base *c06Base, muts []c06Mut) []byte {
 				}
 			}
 			body := append([]byte{}, m.Data...)
-			if m.Val != 0 && len(tgs) > 0 {
+			if m.Val == 5 { // a big intact TG from the real serializer: body length exactly at a 2^15 / 2^16 boundary
+				target := []int{32767, 32768, 65535, 65536, 70000}[((m.Len%5)+5)%5]
+				mk := func(n int) []byte {
+					wc := &wal.WriteCommand{RecordType: io.FIXED, WALKeyPath: "S0/1D/OHLC/2020.bin", Offset: 37024 + 16*300, Index: 301,
+						Data: bytes.Repeat([]byte{0x5a}, n), DataShapes: []io.DataShape{{Name: "Epoch", Type: io.INT64}, {Name: "Px", Type: io.FLOAT32}}}
+					bb, _ := executor.VerifSerializeTG(int64(900000+m.Len), []*wal.WriteCommand{wc})
+					return bb
+				}
+				body = mk(target - len(mk(0)))
+			} else if m.Val != 0 && len(tgs) > 0 {
 				r := tgs[((m.B%len(tgs))+len(tgs))%len(tgs)]
 				body = append([]byte{}, b[r.Off+9:r.Off+r.Len-16]...)
 				switch m.Val {
@@ -595,12 +604,12 @@ func c06Run(raw json.RawMessage) (res Result, err error) {
 	obs.D = d
 	var req []int64
 	if !in.IsRaw {
-		// a transaction that the ORIGINAL file checkpoints (anywhere) is already durable in the primary store: it needs no replay
-		ck := int64(-1 << 63)
-		hasCk := false
+		// a transaction covered by a checkpoint-commit record of the ORIGINAL file that is still present in the
+		// mutant (byte-identical, anywhere) is durable in the primary store: it needs no replay
+		var cks []int64
 		for _, r := range base.recs {
-			if r.Kind == 1 && r.Dest == 1 && r.Status == 2 && (!hasCk || r.ID > ck) {
-				ck, hasCk = r.ID, true
+			if r.Kind == 1 && r.Dest == 1 && r.Status == 2 && bytes.Contains(file, base.bytes[r.Off:r.Off+r.Len]) {
+				cks = append(cks, r.ID)
 			}
 		}
 		type cand struct {
@@ -624,7 +633,13 @@ func c06Run(raw json.RawMessage) (res Result, err error) {
 			}
 		}
 		for _, c := range cands {
-			if c.committed && !(hasCk && c.id <= ck) {
+			covered := false
+			for _, ck := range cks {
+				if c.id <= ck {
+					covered = true
+				}
+			}
+			if c.committed && !covered {
 				req = append(req, c.id)
 			}
 		}
@@ -855,11 +870,15 @@ func c06Gen(r *rng.Rand, i int, tier string) interface{} {
 			vals := []struct {
 				v   int64
 				rel int
-			}{{0, 0}, {1, 0}, {6, 0}, {7, 0}, {8, 0}, {15, 0}, {16, 0}, {-1, 0}, {-1 << 63, 0}, {1<<63 - 1, 0}, {-1, 1}, {1, 1}, {16, 1}, {-16, 1}, {-1, 2}, {0, 2}, {1, 2}, {127, 0}, {128, 0}, {255, 0}, {256, 0}, {65535, 0}, {65536, 0}}
+			}{{0, 0}, {1, 0}, {6, 0}, {7, 0}, {8, 0}, {15, 0}, {16, 0}, {-1, 0}, {-1 << 63, 0}, {1<<63 - 1, 0}, {-1, 1}, {1, 1}, {16, 1}, {-16, 1}, {-1, 2}, {0, 2}, {1, 2}, {127, 0}, {128, 0}, {255, 0}, {256, 0}, {65535, 0}, {65536, 0},
+				{1 << 8, 1}, {1 << 16, 1}, {1 << 32, 1}, {-(1 << 32), 1}, {1 << 31, 0}, {1 << 32, 0}}
 			v := vals[r.Intn(len(vals))]
 			return c06Mut{Op: "setlen", A: r.Intn(8), Val: v.v, Len: v.rel}
 		case k < 94:
 			m := c06Mut{Op: "craft", A: 1 + r.Intn(nrec+1), B: r.Intn(8), Val: int64(1 + r.Intn(4)), Len: r.Intn(50)}
+			if r.Chance(12) {
+				m.Val = 5
+			}
 			if r.Chance(25) {
 				m.Val = 0
 				switch r.Intn(4) {
